@@ -15,7 +15,8 @@ package main
 //   nf | err:<class> | panic:<class> |
 //   ok;t=<Type()>;raw=<hex>;oc=<ordered canon of Raw()>;c=<canon of InterfaceUseNumber()>;
 //      s=<StrictString hex|e|->;n=<StrictNumber|->;i=<StrictInt64|E|->;b=<StrictBool|->;
-//      it=<iterator contents>;f=<StrictFloat64 bits|E|->;cf=<canon of Interface()>;x=<other checks>
+//      it=<iterator contents>;f=<StrictFloat64 bits|E|->;cf=<canon of Interface()>;
+//      un=<ArrayUseNode/MapUseNode/InterfaceUseNode: children as nodes>;x=<other checks>
 // canon: n t f #<literal> F<float bits> s<hex> [..] {<hexkey>:<v>,..} (keys sorted);
 // ordered canon keeps member order and duplicates.
 
@@ -397,6 +398,7 @@ func refRecord(raw []byte) string {
 	} else {
 		sb.WriteString(";cf=" + canonOf(fvv))
 	}
+	sb.WriteString(";un=" + srchRefUseNode(raw, t))
 	sb.WriteString(";x=ok")
 	return sb.String()
 }
@@ -639,6 +641,8 @@ func nodeRecord(n *ast.Node) string {
 			bad = append(bad, "Map")
 		}
 	}
+	// the *UseNode conversions: children as nodes; each child shown through the ordered canon of its Raw()
+	un := srchUseNodeView(n, t, &bad)
 	// Raw() again after the node itself has been loaded
 	if _, err := n.InterfaceUseNumber(); err == nil {
 		if raw2, err := n.Raw(); err != nil || ocanonText([]byte(raw2)) != oc {
@@ -650,6 +654,7 @@ func nodeRecord(n *ast.Node) string {
 	sb.WriteString(";it=" + it)
 	sb.WriteString(";f=" + f)
 	sb.WriteString(";cf=" + cf)
+	sb.WriteString(";un=" + un)
 	if len(bad) == 0 {
 		sb.WriteString(";x=ok")
 	} else {
@@ -1212,4 +1217,149 @@ func init() {
 		sb.WriteString("\tu8=" + b01(utf8.Valid(doc)))
 		return sb.String()
 	})
+}
+
+// ---------------------------------------------------------------- *UseNode conversions
+
+func srchNodeOC(n *ast.Node) string {
+	raw, err := n.Raw()
+	if err != nil {
+		return "E"
+	}
+	return ocanonText([]byte(raw))
+}
+
+func srchNodesCanon(ns []ast.Node) string {
+	var sb strings.Builder
+	sb.WriteByte('[')
+	for i := range ns {
+		if i > 0 {
+			sb.WriteByte(',')
+		}
+		sb.WriteString(srchNodeOC(&ns[i]))
+	}
+	sb.WriteByte(']')
+	return sb.String()
+}
+
+func srchNodeMapCanon(m map[string]ast.Node) string {
+	keys := make([]string, 0, len(m))
+	for k := range m {
+		keys = append(keys, k)
+	}
+	sort.Strings(keys)
+	var sb strings.Builder
+	sb.WriteByte('{')
+	for i, k := range keys {
+		if i > 0 {
+			sb.WriteByte(',')
+		}
+		v := m[k]
+		sb.WriteString(srchHx(k))
+		sb.WriteByte(':')
+		sb.WriteString(srchNodeOC(&v))
+	}
+	sb.WriteByte('}')
+	return sb.String()
+}
+
+// srchUseNodeView: ArrayUseNode / MapUseNode on copies of the located node, cross-checked with
+// InterfaceUseNode on another copy (and on a copy that was loaded with LoadAll first)
+func srchUseNodeView(n *ast.Node, t int, bad *[]string) string {
+	switch t {
+	case 5:
+		cp := *n
+		v, err := cp.ArrayUseNode()
+		if err != nil {
+			return "E"
+		}
+		un := srchNodesCanon(v)
+		cp2 := *n
+		if w, err := cp2.InterfaceUseNode(); err != nil {
+			*bad = append(*bad, "InterfaceUseNode")
+		} else if ws, ok := w.([]ast.Node); !ok || srchNodesCanon(ws) != un {
+			*bad = append(*bad, "InterfaceUseNode")
+		}
+		cp3 := *n
+		if cp3.LoadAll() == nil {
+			if w, err := cp3.ArrayUseNode(); err != nil || srchNodesCanon(w) != un {
+				*bad = append(*bad, "ArrayUseNodeAfterLoad")
+			}
+		}
+		return un
+	case 6:
+		cp := *n
+		v, err := cp.MapUseNode()
+		if err != nil {
+			return "E"
+		}
+		un := srchNodeMapCanon(v)
+		cp2 := *n
+		if w, err := cp2.InterfaceUseNode(); err != nil {
+			*bad = append(*bad, "InterfaceUseNode")
+		} else if wm, ok := w.(map[string]ast.Node); !ok || srchNodeMapCanon(wm) != un {
+			*bad = append(*bad, "InterfaceUseNode")
+		}
+		cp3 := *n
+		if cp3.LoadAll() == nil {
+			if w, err := cp3.MapUseNode(); err != nil || srchNodeMapCanon(w) != un {
+				*bad = append(*bad, "MapUseNodeAfterLoad")
+			}
+		}
+		return un
+	default:
+		cp := *n
+		w, err := cp.InterfaceUseNode()
+		if err != nil {
+			return "E"
+		}
+		if nd, ok := w.(ast.Node); ok {
+			return srchNodeOC(&nd)
+		}
+		return "?"
+	}
+}
+
+// srchRefUseNode: the same view from encoding/json: children in order (array), or one entry per
+// distinct decoded key, last occurrence (object), each as the ordered canon of its text
+func srchRefUseNode(raw []byte, t int) string {
+	switch t {
+	case 5:
+		return ocanonText(raw)
+	case 6:
+		dec := json.NewDecoder(bytes.NewReader(raw))
+		dec.UseNumber()
+		if _, err := dec.Token(); err != nil {
+			return "!"
+		}
+		m := map[string]string{}
+		for dec.More() {
+			kt, err := dec.Token()
+			if err != nil {
+				return "!"
+			}
+			var v json.RawMessage
+			if err := dec.Decode(&v); err != nil {
+				return "!"
+			}
+			m[kt.(string)] = ocanonText(v)
+		}
+		keys := make([]string, 0, len(m))
+		for k := range m {
+			keys = append(keys, k)
+		}
+		sort.Strings(keys)
+		var sb strings.Builder
+		sb.WriteByte('{')
+		for i, k := range keys {
+			if i > 0 {
+				sb.WriteByte(',')
+			}
+			sb.WriteString(srchHx(k) + ":" + m[k])
+		}
+		sb.WriteByte('}')
+		return sb.String()
+	default:
+		return ocanonText(raw)
+	}
 }
